@@ -137,6 +137,7 @@ class Interp:
         self.fuel = fuel
         self.chain = []           # active function labels, outermost first
         self.classes = {}
+        self.class_env = {}
         self.file_label = file_label
         self.fn_counter = 0
         self.events = []
@@ -241,7 +242,9 @@ class Interp:
             base.fields[s[2]].v = v
         elif k == "class":
             self.classes[s[1]] = s
-            env.scopes[-1][s[1]] = Cell(("class", s[1], env.snapshot()))
+            snap = env.snapshot()
+            self.class_env[s[1]] = snap
+            env.scopes[-1][s[1]] = Cell(("class", s[1], snap))
         elif k == "rawstmt":
             pass
         else:
@@ -408,7 +411,10 @@ class Interp:
             return self.call(f, argv, e)
         if k == "new":
             argv = [self.ev(a, env) for a in e[2]]
-            return self.construct(e[1], argv, env, e)
+            cname = e[1]
+            if cname == "Self":
+                cname = env.find("self").v.cls
+            return self.construct(cname, argv, env, e)
         if k == "mcall":
             r = self.ev(e[1], env)
             argv = [self.ev(a, env) for a in e[3]]
@@ -477,7 +483,47 @@ class Interp:
         return r
 
     def construct(self, cname, argv, env, node):
-        raise NotImplementedError
+        cell = env.find(cname)
+        _, _, cenv = cell.v
+        cls = self.classes[cname]
+        obj = MObj(cname)
+        for fname, _ in cls[2]:
+            obj.fields[fname] = Cell(None)
+        if cls[3] is not None:
+            fe = Env(cenv, "%s::$constructor" % cname)
+            fe.scopes[-1]["self"] = Cell(obj)
+            for (pn, _), a in zip(cls[3], argv):
+                fe.scopes[-1][pn] = Cell(a)
+            self.chain.append(fe.label)
+            try:
+                self.block_in(cls[4], fe, new_scope=False)
+            except _Return:
+                pass
+            self.chain.pop()
+        return obj
+
+    def call_method(self, obj, name, argv, node):
+        cls = self.classes[obj.cls]
+        for mname, params, ret, body in cls[5]:
+            if mname == name:
+                break
+        else:
+            raise ValueError("no method %s on %s" % (name, obj.cls))
+        cenv = self.class_env[obj.cls]
+        fe = Env(cenv, "%s::%s" % (obj.cls, name))
+        fe.scopes[-1]["self"] = Cell(obj)
+        for (pn, _), a in zip(params, argv):
+            fe.scopes[-1][pn] = Cell(a)
+        self.chain.append(fe.label)
+        if len(self.chain) > 200:
+            raise OutOfFuel()
+        try:
+            self.block_in(body, fe, new_scope=False)
+            r = None
+        except _Return as ret_:
+            r = ret_.v
+        self.chain.pop()
+        return r
 
     def method(self, r, name, argv, node):
         from . import builtins_model
